@@ -117,6 +117,8 @@ func (x *Exec) execInstr(st *State, ins ssa.Instruction) {
 	case *ssa.Lookup:
 		st.regs[i] = x.doLookup(st, i)
 	case *ssa.MapUpdate:
+		// visible to contracts as `before call builtin mapupdate(m, k, v): assert ...`
+		x.pseudoBefore(st, ins, "builtin mapupdate", []Value{x.operand(st, i.Map), x.operand(st, i.Key), x.operand(st, i.Value)})
 		x.doMapUpdate(st, i)
 	case *ssa.Range:
 		x.doRange(st, i)
